@@ -317,6 +317,8 @@ _C18_ARGV = [
     (["scan", "/vfs/missing.md"], "no-files"),
     (["scan", "/vfs/*.txt"], "no-files"),
     (["scan", "-l", "/vfs/f.md"], "success"),
+    (["scan", "-l", "/vfs/f.md", "/vfs/missing.md"], "no-files"),
+    (["scan", "/vfs/f.md", "/vfs/missing.md"], "no-files"),
     (["plugins", "list"], "success"),
     (["extensions", "list"], "success"),
     (["plugins", "info", "md001"], "success"),
